@@ -92,6 +92,9 @@ type sszPackage struct {
 	types  map[string]*sszType
 	views  map[string]*sszViewDef
 	consts map[string]ast.Expr
+	decls  map[string]bool // declared type names
+	// methods of the preset/spec structs that return a view type: `func (c *Phase0Preset) CommitteeIndices() ListTypeDef`
+	specMethods map[string]*sszViewDef
 }
 
 var sszFset = token.NewFileSet()
@@ -129,7 +132,7 @@ func sszLoad(repo string) (map[string]*sszPackage, error) {
 		if err != nil {
 			return nil, err
 		}
-		pk := &sszPackage{name: p, types: map[string]*sszType{}, views: map[string]*sszViewDef{}, consts: map[string]ast.Expr{}}
+		pk := &sszPackage{name: p, types: map[string]*sszType{}, views: map[string]*sszViewDef{}, consts: map[string]ast.Expr{}, decls: map[string]bool{}, specMethods: map[string]*sszViewDef{}}
 		out[p] = pk
 		var files []*ast.File
 		for _, e := range ents {
@@ -160,6 +163,7 @@ func sszLoad(repo string) (map[string]*sszPackage, error) {
 						switch s := s.(type) {
 						case *ast.TypeSpec:
 							specs[s.Name.Name] = s
+							pk.decls[s.Name.Name] = true
 						case *ast.ValueSpec:
 							for i, nm := range s.Names {
 								if i < len(s.Values) {
@@ -185,6 +189,12 @@ func sszLoad(repo string) (map[string]*sszPackage, error) {
 							}
 						}
 						continue
+					}
+					if tn, rv := sszRecvName(d); (strings.HasSuffix(tn, "Preset") || tn == "Spec" || tn == "Config") && rv != "" &&
+						d.Type.Params != nil && len(d.Type.Params.List) == 0 && d.Body != nil && len(d.Body.List) == 1 {
+						if r, ok := d.Body.List[0].(*ast.ReturnStmt); ok && len(r.Results) == 1 {
+							pk.specMethods[d.Name.Name] = &sszViewDef{pkg: p, name: d.Name.Name, specful: true, specParam: rv, expr: r.Results[0]}
+						}
 					}
 					isM := false
 					for _, m := range sszMethodNames {
